@@ -41,6 +41,8 @@ type RunOpts struct {
 	AfterOp func(e *Env, i int, op *Op)
 	// virtual clock available (inst build): tick ops advance it
 	Virtual bool
+	// record observations in the trace (C12)
+	Trace bool
 }
 
 type Env struct {
@@ -63,9 +65,14 @@ type Env struct {
 	abandoned []*sod.DB
 	// pending async writes exist (disk may lag)
 	dirty bool
+	// normalised trace of outcomes (C12 differential)
+	trace []string
+	// called with the caller's object after an accepted InsertOrUpdate (C14)
+	onStored func(arg *Doc)
 	// evidence classification state
 	released map[string]map[string]bool
 	reopened bool
+	closed   bool
 	// number of automatic sweep queries evaluated / with a non-empty non-total result
 	sweepQueries_, sweepPartial int
 	// last search delete etc. for hooks
@@ -126,6 +133,10 @@ func newRoot() string {
 
 func (e *Env) flag(name string) { e.flags[name]++ }
 
+func (e *Env) tracef(format string, args ...interface{}) {
+	e.trace = append(e.trace, fmt.Sprintf(format, args...))
+}
+
 func (e *Env) failf(format string, args ...interface{}) {
 	msg := fmt.Sprintf(format, args...)
 	recordFailure(e.prog, msg)
@@ -165,6 +176,10 @@ func NewEnv(t TB, prog *Program, opts RunOpts) *Env {
 
 // Teardown closes every handle and removes the root.
 func (e *Env) Teardown() {
+	if e.closed {
+		return
+	}
+	e.closed = true
 	if e.db != nil {
 		e.db.Close()
 	}
@@ -628,6 +643,10 @@ func (e *Env) Check(where string) {
 	e.absentCheckNote()
 	got := e.Observe(e.db, qs)
 	want := e.Expect(qs)
+	if e.opts.Trace {
+		b, _ := json.Marshal(got)
+		e.tracef("%s: %s", where, b)
+	}
 	if d := diffObs(got, want); len(d) > 0 {
 		if len(d) > 6 {
 			d = append(d[:6], fmt.Sprintf("... and %d more", len(d)-6))
@@ -683,8 +702,12 @@ func (e *Env) upsert(what string, d *Doc, id string) {
 	arg.Initialize(id)
 	err := e.db.InsertOrUpdate(arg)
 	got := classify(err)
+	e.tracef("%s -> %s", what, got)
 	if got != want {
 		e.failf("%s: InsertOrUpdate outcome %q (%v), model says %q", what, got, err, want)
+	}
+	if err == nil && e.onStored != nil {
+		defer e.onStored(arg)
 	}
 	switch want {
 	case OK:
@@ -730,7 +753,13 @@ func (e *Env) upsert(what string, d *Doc, id string) {
 }
 
 func (e *Env) deleteIDs(set map[string]bool) {
+	// deterministic order (creation ordinal): later relative refs depend on it
+	ids := make([]string, 0, len(set))
 	for id := range set {
+		ids = append(ids, id)
+	}
+	sort.Slice(ids, func(i, j int) bool { return e.ord[ids[i]] < e.ord[ids[j]] })
+	for _, id := range ids {
 		e.trackDelete(id)
 		e.m.Delete(id)
 	}
@@ -944,6 +973,8 @@ func (e *Env) Exec(i int, op *Op) bool {
 		if err := e.db.Commit(&Doc{}); err != nil {
 			e.failf("%s: Commit: %v", what, err)
 		}
+	case "snapshot":
+		e.execSnapshot(what, op)
 	case "check":
 		e.Check(what)
 	default:
@@ -1160,6 +1191,7 @@ func (e *Env) execMany(what string, op *Op) {
 	args, mdocs, mids, _ := e.resolveItems(op.Items)
 	want, final, ids := e.modelBatch(mdocs, mids)
 	n, err := e.db.InsertOrUpdateMany(args...)
+	e.tracef("%s -> n=%d %s", what, n, classify(err))
 	e.batchClasses(op.Items, mids, want)
 	if want == OK {
 		if err != nil {
@@ -1169,6 +1201,15 @@ func (e *Env) execMany(what string, op *Op) {
 			e.failf("%s: InsertOrUpdateMany n=%d, want %d", what, n, len(args))
 		}
 		e.applyBatch(what, args, final, ids)
+		if e.onStored != nil {
+			done := map[sod.Object]bool{}
+			for _, a := range args {
+				if d, ok := a.(*Doc); ok && !done[a] {
+					done[a] = true
+					e.onStored(d)
+				}
+			}
+		}
 		return
 	}
 	if err == nil {
@@ -1208,6 +1249,7 @@ func (e *Env) execBulk(what string, op *Op) {
 	}
 	close(ch)
 	n, err := e.db.InsertOrUpdateBulk(ch, csize)
+	e.tracef("%s -> n=%d err=%v", what, n, err != nil)
 	wantN := 0
 	wantErr := OK
 	for ci, c := range chunks {
@@ -1253,11 +1295,16 @@ func (e *Env) execQuery(what string, q *Query) {
 	if cls != OK {
 		// the query cannot be evaluated: it must not return objects
 		if s.Err() == nil {
-			if objs, err := s.Collect(); err == nil && len(objs) > 0 {
+			objs, err := s.Collect()
+			if err == nil && len(objs) > 0 {
 				e.failf("%s: query %s cannot be evaluated (%s) but returned %d objects", what, q, cls, len(objs))
 			}
+			e.tracef("%s %s -> no search error, collect: %d objects, %s", what, q, len(objs), classify(err))
+		} else {
+			e.tracef("%s %s -> search error %s", what, q, classify(s.Err()))
 		}
 		e.flag("query-unevaluable")
+		e.flag("query-unevaluable-" + cls)
 		return
 	}
 	if s.Err() != nil {
@@ -1484,7 +1531,7 @@ func validUTF8(s string) bool {
 			return false
 		}
 	}
-	return json.Valid([]byte(`"` + "x" + `"`)) && strings.ToValidUTF8(s, "") == s
+	return json.Valid([]byte(`"`+"x"+`"`)) && strings.ToValidUTF8(s, "") == s
 }
 
 func nextAfter(f float64, dir int) float64 {
@@ -1492,3 +1539,120 @@ func nextAfter(f float64, dir int) float64 {
 }
 
 var _ = reflect.TypeOf
+
+// execSnapshot (C20): evaluate a search, perform writes, then consume it.
+func (e *Env) execSnapshot(what string, op *Op) {
+	q := *op.Q
+	matched, cls := e.m.Eval(q)
+	s := e.runQuery(e.db, q)
+	if cls != OK || s.Err() != nil {
+		if cls == OK {
+			e.failf("%s: query %s failed: %v", what, q, s.Err())
+		}
+		return
+	}
+	M := map[string]bool{}
+	for id := range matched {
+		M[id] = true
+	}
+	before := map[string]bool{}
+	for id := range e.m.objs {
+		before[id] = true
+	}
+	deleted := map[string]bool{}
+	keyP := docPathIndex[q.Leaves[len(q.Leaves)-1].Path]
+	lo, hi := norm{}, norm{}
+	first := true
+	for id := range M {
+		k := normLeaf(e.m.objs[id], keyP)
+		if first || k.cmp(lo) < 0 {
+			lo = k
+		}
+		if first || k.cmp(hi) > 0 {
+			hi = k
+		}
+		first = false
+	}
+	for i := range op.Sub {
+		sub := &op.Sub[i]
+		// where does the write land relative to the result range? (evidence)
+		switch sub.Op {
+		case "insert", "update":
+			var d *Doc
+			if sub.Op == "insert" {
+				d = sub.D
+			} else if id, ok := e.liveRef(sub.Ref); ok {
+				d = cloneDoc(e.m.objs[id])
+				applySets(d, sub.Sets)
+			}
+			if d != nil && !first {
+				k := normLeaf(d, keyP)
+				if k.cmp(lo) >= 0 && k.cmp(hi) <= 0 {
+					e.flag("snapshot-write-inside-range")
+				} else {
+					e.flag("snapshot-write-outside-range")
+				}
+			}
+		}
+		prev := map[string]bool{}
+		for id := range e.m.objs {
+			prev[id] = true
+		}
+		e.Exec(e.step, sub)
+		for id := range prev {
+			if _, still := e.m.objs[id]; !still {
+				deleted[id] = true
+			}
+		}
+	}
+	D := map[string]bool{}
+	for id := range deleted {
+		if M[id] {
+			D[id] = true
+		}
+	}
+	if len(op.Sub) > 0 {
+		e.flag("snapshot-with-writes")
+	}
+	if len(D) > 0 {
+		e.flag("snapshot-member-deleted")
+	}
+	if s.Len() != len(M) {
+		e.failf("%s: Len() of the outstanding search %s changed from %d to %d after later writes", what, q, len(M), s.Len())
+	}
+	var objs []sod.Object
+	var err error
+	switch q.Consumer {
+	case "assign":
+		var docs []*Doc
+		if err = s.Assign(&docs); err == nil {
+			for _, d := range docs {
+				objs = append(objs, d)
+			}
+		}
+	default:
+		objs, err = s.Collect()
+	}
+	if err != nil {
+		if len(D) == 0 {
+			e.failf("%s: collecting the outstanding search %s failed (%v) although no member was deleted", what, q, err)
+		}
+		return
+	}
+	seen := map[string]bool{}
+	for _, o := range objs {
+		id := o.(*Doc).UUID()
+		if !M[id] {
+			e.failf("%s: outstanding search %s returned %s, which did not match when the search was evaluated (matches then: %d)", what, q, e.docLine(o), len(M))
+		}
+		if seen[id] {
+			e.failf("%s: outstanding search %s returned %s twice", what, q, e.tag(id))
+		}
+		seen[id] = true
+	}
+	for id := range M {
+		if !D[id] && !seen[id] {
+			e.failf("%s: outstanding search %s lost %s, which matched at evaluation time and was not deleted since", what, q, e.tag(id))
+		}
+	}
+}
